@@ -2795,7 +2795,9 @@ func (m *Machine) IsQueued(mutType MutationType, states S,
 		idx := math.Max(0, float64(len(iter)-1))
 		iter = iter[int(idx):]
 	case PositionFirst:
-		iter = iter[0:1]
+		if len(iter) > 1 {
+			iter = iter[0:1]
+		}
 	}
 
 	for i, mut := range iter {
